@@ -13,6 +13,9 @@ package verifharness
 //       hook return, is the resulting state the state of "this unit contributed nothing" (= the
 //       state after failing the unit at its first access) / the fault-free state / something else,
 //       and were all the other units still started.
+//  (iii) error injection (c15_err_test.go): reachable states in which a unit RETURNS AN ERROR after it
+//       has written; the unit's ApplyFuncIfNoError instance must have contributed nothing, every other
+//       unit everything.
 
 import (
 	"fmt"
@@ -65,6 +68,30 @@ type c15Probe struct {
 	owner    []int     // per consumption (record mode): wrap id, 0 = outside every wrap
 	rootTag  []string  // per consumption outside every wrap: marker of an unwrapped unit, or ""
 	disabled bool
+	// error cases (record mode): per marked function (suffix of its qualified name), the wrap
+	// instances (0 = outside every wrap) in which it performed store accesses, in order of entry
+	markers []string
+	seen    map[string][]int
+}
+
+// which of the marked functions are on the stack
+func (p *c15Probe) noteMarkers() {
+	pcs := make([]uintptr, 64)
+	n := runtime.Callers(3, pcs)
+	fr := runtime.CallersFrames(pcs[:n])
+	for {
+		f, more := fr.Next()
+		for _, m := range p.markers {
+			if strings.HasSuffix(f.Function, m) {
+				if l := p.seen[m]; len(l) == 0 || l[len(l)-1] != p.cur {
+					p.seen[m] = append(l, p.cur)
+				}
+			}
+		}
+		if !more {
+			break
+		}
+	}
 }
 
 type c15Inner = storetypes.CacheMultiStore
@@ -211,6 +238,9 @@ func (g *c15Meter) ConsumeGas(_ storetypes.Gas, descriptor string) {
 			w.cnt++
 		}
 		p.rootTag = append(p.rootTag, tag)
+		if len(p.markers) > 0 {
+			p.noteMarkers()
+		}
 	}
 	if idx == p.crashAt {
 		panic(storetypes.ErrorOutOfGas{Descriptor: descriptor})
@@ -712,6 +742,9 @@ func TestC15(t *testing.T) {
 		}
 		ci++
 	}
+
+	// ---- (iii) error injection: units that RETURN AN ERROR after they have written (c15_err_test.go) ----
+	ci = c15RunErrorCases(t, a, tr, r, only, states, env, ci)
 }
 
 // what the slice expressions of the sweeps will see (inputs of Model/Sweep.v), one line per sweep of
